@@ -1742,6 +1742,7 @@ class History:
         self.step_no = 0
         self.probe: tuple[Any, Any, str] | None = None
         self.fatal = False
+        self.last_after: Snap | None = None
 
     # ---------------------------------------------------------- materialise
     def m_op(self, spec: dict[str, Any], triple: bool) -> Any:
@@ -1945,6 +1946,7 @@ def _witness(H: History, prop: str, kind: str, name: str, S: Snap, **kw: Any) ->
         'init': H.init, 'history': list(H.calls),
         'state_before_call': S.render() if len(S.ops) <= 40 else {'num_ops': len(S.ops)},
         'aliased_operation_reuses': H.alias_used,
+        'shared_operation_objects': _shared(S) or _shared(H.last_after),
     }
     w.update(kw)
     fatal = (prop == 'C05' and not kind.startswith('view:count_op:circuitgate')) \
@@ -1954,6 +1956,14 @@ def _witness(H: History, prop: str, kind: str, name: str, S: Snap, **kw: Any) ->
     if any(x['kind'] == kind for x in H.wit):
         return
     H.wit.append(w)
+
+
+def _shared(S: Snap | None) -> bool:
+    """Is one Operation object held at two places of the grid?"""
+    if S is None:
+        return False
+    ids = [id(r.obj) for r in S.ops]
+    return len(set(ids)) != len(ids)
 
 
 def _unitary(circ: Any) -> Any:
@@ -2053,6 +2063,7 @@ def _step(H: History, call: dict[str, Any]) -> bool:
         err = exc_fields(e)
     work = new if new is not None else circ
     A = Snap(work)
+    H.last_after = A
     H.cnt['grid_reads'] += 1
     if name == 'renumber_qudits' and err is None and status == 'valid' \
             and list(a['perm']) != list(range(S.n)):
@@ -2064,11 +2075,23 @@ def _step(H: History, call: dict[str, Any]) -> bool:
         tag = name + ':after_rejected_call'
     stop = False
     vbad = []
+    if err is not None and status != 'valid':
+        # e.g. replace_with_circuit pops for real before it validates: the
+        # edge-counter KeyError after a renumbering is that same mechanism
+        prop0, kind0 = _classify_exc(H, name, err, work)
+        if kind0.endswith(':_graph_info_after_renumber'):
+            _witness(H, prop0, kind0, name, S, expected='no internal error', observed='exception', status=status, **err)
+            H.snap, H.circ = A, work
+            return not H.fatal
     if not (err is not None and status == 'valid'):
         # (a valid call that raised half-way is reported as such below; the
         # torn state it leaves behind is a consequence, not a second finding)
         vbad = check_views(
-            work, A, full=H.f_views,
+            work, A,
+            # (a call the model deems invalid but the code accepts may leave
+            # anything behind: look at all views even when they are not this
+            # run's subject, so that later calls are not blamed for it)
+            full=H.f_views or (status == 'invalid' and err is None),
             with_copy=H.f_views and (H.step_no % 4 == 0 or H.every_step),
             heavy=H.step_no % 2 == 0 or name in STRUCTURAL or H.every_step,
         )
@@ -2079,6 +2102,12 @@ def _step(H: History, call: dict[str, Any]) -> bool:
     if vbad and err is not None:
         # one finding: a rejected call left the views torn
         _witness(H, 'C05', 'views_broken_after_rejected_call:%s' % name, name, S, views=sorted({v for v, _ in vbad}), detail=vbad[0][1], state_after_call=A.render(), status=status, error=err)
+        stop = True
+        vbad = []
+    if vbad and status == 'invalid' and err is None:
+        # one finding: arguments outside the documented domain were accepted
+        # and left the views torn
+        _witness(H, 'C05', 'views_broken_after_invalid_call_accepted:%s' % name, name, S, views=sorted({v for v, _ in vbad}), detail=vbad[0][1], state_after_call=A.render(), status=status)
         stop = True
         vbad = []
     for which, detail in vbad[:3]:
@@ -2105,7 +2134,10 @@ def _step(H: History, call: dict[str, Any]) -> bool:
         H.snap, H.circ = A, work
         return not H.fatal
 
-    # the call returned
+    # the call returned. C04's comparisons run whatever the view checks said
+    # (an idle cycle must not mask an order change), unless the grid itself
+    # cannot be read consistently.
+    hit = bool(A.problems)
     if status == 'invalid':
         H.cnt['invalid_accepted:' + name] += 1
     if status == 'unspecified':
@@ -2122,7 +2154,7 @@ def _step(H: History, call: dict[str, Any]) -> bool:
     got = A.seqs()
     # structure-only calls may never change the unfolded program, whatever
     # the model thinks of the arguments
-    if H.f_order and struct_only and flat0 is not None and not stop:
+    if H.f_order and struct_only and flat0 is not None and not hit:
         if A.radixes != S.radixes or not seqs_equal(flatten(got), flat0):
             ctx = exp.context if exp is not None else ''
             rev = exp is not None and exp.rev_options is not None and any(
@@ -2130,22 +2162,22 @@ def _step(H: History, call: dict[str, Any]) -> bool:
             )
             kind = '%s:order_changed%s' % (name, ':' + ctx if ctx else '')
             _witness(H, 'C04', kind, name, S, expected='unfolded per-qudit sequences unchanged by a structure-only call', observed=A.render(), status=status, context=ctx, inserted_in_reverse_order=bool(rev))
-            stop = True
-    if H.f_unitary and struct_only and U0 is not None and not stop and A.radixes == S.radixes:
+            hit = True
+    if H.f_unitary and struct_only and U0 is not None and not hit and A.radixes == S.radixes:
         try:
             U1 = _unitary(work)
             H.cnt['refsim_unitary_cmp'] += 1
             if np.max(np.abs(U1 - U0)) > UTOL:
                 _witness(H, 'C04', 'unitary:%s:changed' % name, name, S, expected='same unitary', observed={'max_abs_diff': float(np.max(np.abs(U1 - U0)))}, state_after_call=A.render(), status=status)
-                stop = True
+                hit = True
         except Exception:  # noqa
             pass
 
-    if exp is not None and not stop and H.f_order:
+    if exp is not None and not hit and H.f_order:
         ok_shape = A.radixes == exp.radixes
         if not ok_shape:
             _witness(H, 'C04', 'shape:%s' % name, name, S, expected={'radixes': list(exp.radixes)}, observed={'radixes': list(A.radixes)})
-            stop = True
+            hit = True
         else:
             cmp_got = flatten(got) if exp.flat else got
             if not any(seqs_equal(cmp_got, o) for o in exp.options):
@@ -2154,11 +2186,11 @@ def _step(H: History, call: dict[str, Any]) -> bool:
                 if name in ('imul',) and exp.context == 'times_zero':
                     kind = 'imul:times_zero_keeps_operations'
                 _witness(H, 'C04', kind, name, S, expected={'per_qudit': short(exp.options[0])}, observed={'per_qudit': short(cmp_got)}, state_after_call=A.render(), context=exp.context, inserted_in_reverse_order=bool(rev))
-                stop = True
-        if not stop and exp.must_be_self and ret is not circ:
+                hit = True
+        if not hit and exp.must_be_self and ret is not circ:
             _witness(H, 'C04', 'return_value:%s:not_self' % PUBLIC_NAME.get(name, name), name, S, expected='the in-place operator returns the circuit itself (Python rebinds the name to the return value)', observed=repr(ret)[:60])
-            stop = True
-        if not stop and exp.ret is not None:
+            hit = True
+        if not hit and exp.ret is not None:
             try:
                 r = exp.ret(ret, A, work)
             except Exception as e:  # noqa
@@ -2168,25 +2200,25 @@ def _step(H: History, call: dict[str, Any]) -> bool:
                 if isinstance(r, dict) and r.get('detail'):
                     k += ':' + str(r['detail'])
                 _witness(H, 'C04', k, name, S, expected=r.get('want') if isinstance(r, dict) else None, observed=r, state_after_call=A.render())
-                stop = True
-        if not stop and exp.post is not None:
+                hit = True
+        if not hit and exp.post is not None:
             for what, detail in exp.post(A, work):
                 _witness(H, 'C04', 'postcondition:%s' % name, name, S, expected=what, observed=detail, state_after_call=A.render())
-                stop = True
-        if not stop and exp.new_circuit:
+                hit = True
+        if not hit and exp.new_circuit:
             B = Snap(circ)
             if B.radixes != S.radixes or not seqs_equal(B.seqs(), S.seqs()):
                 _witness(H, 'C04', 'operand_modified:%s' % name, name, S, expected='left operand unchanged', observed=B.render())
-                stop = True
+                hit = True
         # unitary relations
-        if not stop and H.f_unitary and refsim.dim_of(A.radixes) <= H.max_dim:
+        if not hit and H.f_unitary and refsim.dim_of(A.radixes) <= H.max_dim:
             try:
                 if exp.unitary == 'same' and U0 is not None and not struct_only:
                     U1 = _unitary(work)
                     H.cnt['refsim_unitary_cmp'] += 1
                     if np.max(np.abs(U1 - U0)) > UTOL:
                         _witness(H, 'C04', 'unitary:%s:changed' % name, name, S, expected='same unitary', observed={'max_abs_diff': float(np.max(np.abs(U1 - U0)))})
-                        stop = True
+                        hit = True
                 elif isinstance(exp.unitary, tuple) and U0 is not None:
                     p = exp.unitary[1]
                     inv = [p.index(i) for i in range(len(p))]
@@ -2196,7 +2228,7 @@ def _step(H: History, call: dict[str, Any]) -> bool:
                     H.cnt['refsim_conjugation_cmp'] += 1
                     if np.max(np.abs(U1 - P @ U0 @ P.T)) > UTOL:
                         _witness(H, 'C04', 'unitary:renumber_qudits:not_conjugated', name, S, expected='P U P^T', observed={'max_abs_diff': float(np.max(np.abs(U1 - P @ U0 @ P.T)))})
-                        stop = True
+                        hit = True
                 elif exp.unitary == 'inverse' and U0 is not None:
                     U1 = _unitary(work)
                     H.cnt['refsim_unitary_cmp'] += 1
@@ -2204,19 +2236,19 @@ def _step(H: History, call: dict[str, Any]) -> bool:
                     d = np.max(np.abs(U1 @ U0 - np.eye(U0.shape[0])))
                     if d > UTOL:
                         _witness(H, 'C04', 'unitary:inverse:not_identity', name, S, expected='C^-1 C = 1', observed={'max_abs_diff': float(d)})
-                        stop = True
-                if not stop and Um is not None:
+                        hit = True
+                if not hit and Um is not None:
                     U1 = _unitary(work)
                     H.cnt['refsim_unitary_cmp'] += 1
                     H.cnt['refsim_model_cmp'] += 1
                     if np.max(np.abs(U1 - Um)) > UTOL:
                         _witness(H, 'C04', 'unitary:%s:differs_from_model' % name, name, S, expected='unitary of the list-of-cycles model', observed={'max_abs_diff': float(np.max(np.abs(U1 - Um)))}, state_after_call=A.render())
-                        stop = True
+                        hit = True
             except Exception as e:  # noqa  (iteration broken: C05 reports it)
                 H.cnt['refsim_failed:' + type(e).__name__] += 1
 
     # aliasing probe for copy(): the original must not move with the copy
-    if H.probe is not None and changed and not stop:
+    if H.probe is not None and changed and not stop and not hit:
         old, seqs0, nm = H.probe
         H.probe = None
         B = Snap(old)
@@ -2339,7 +2371,7 @@ def run_calls(
         H2 = run_calls(init, _strip_refs(H.calls), dict(flags or {}, _noalias=True), limit_s)
         still = {w['kind'] for w in H2.wit}
         for w in H.wit:
-            if w['kind'] not in still:
+            if w['kind'] not in still and w.get('shared_operation_objects'):
                 w['kind_without_alias'] = w['kind']
                 w['kind'] = w['kind'] + '+aliased_operation'
     return H
@@ -2497,6 +2529,31 @@ class Gen:
 
     def region(self, S: Snap, bad: bool) -> dict[str, list[int]]:
         rng = self.rng
+        if bad and len(S.ops) >= 3 and rng.random() < 0.45:
+            # "bridge": two operations joined by a dependency path through
+            # operations outside the region (not convex; must be refused)
+            cols = S.cols()
+            succ: dict[int, list[int]] = {}
+            for col in cols:
+                for x, y in zip(col, col[1:]):
+                    succ.setdefault(x, []).append(y)
+            a0 = int(rng.integers(len(S.ops)))
+            cur = a0
+            for _ in range(int(rng.integers(2, 5))):
+                nx = succ.get(cur)
+                if not nx:
+                    break
+                cur = nx[int(rng.integers(len(nx)))]
+            if cur != a0:
+                reg0: dict[int, list[int]] = {}
+                for i in (a0, cur):
+                    r = S.ops[i]
+                    for q in r.loc:
+                        if q in reg0:
+                            reg0[q] = [min(reg0[q][0], r.cycle), max(reg0[q][1], r.cycle)]
+                        else:
+                            reg0[q] = [r.cycle, r.cycle]
+                return {str(q): v for q, v in reg0.items()}
         if bad or not S.ops:
             k = int(rng.integers(4))
             if k == 0:
@@ -2920,6 +2977,7 @@ FAMILIES: dict[str, dict[str, Any]] = {
             {'m': 'fold', 'a': {'region': {'1': [1, 2], '0': [1, 1]}}},
             {'m': 'fold', 'a': {'region': {'1': [2, 3], '2': [3, 3]}}},
             {'m': 'fold', 'a': {'region': {'0': [0, 2], '2': [0, 2]}}},
+            {'m': 'fold', 'a': {'region': {'0': [0, 0], '1': [3, 3], '2': [3, 3]}}},
             {'m': 'unfold', 'a': {'pt': [0, 0]}}, {'m': 'unfold', 'a': {'pt': [1, 1]}},
             {'m': 'unfold', 'a': {'pt': [2, 1]}}, {'m': 'unfold_all', 'a': {}},
             {'m': 'straighten', 'a': {'region': {'0': [0, 1], '1': [1, 2]}}},
@@ -3125,11 +3183,13 @@ def run_property(
 
     # report: at most 3 witnesses per mechanism, shrunk ones first
     chosen = []
+    run.max_violation_files = 40
     for kind, ws in sorted(per_kind.items()):
         ws.sort(key=lambda w: len(w.get('history', [])))
-        chosen.append((ws[0], flags, True))
-        for w in ws[1:3]:
-            chosen.append((w, flags, False))
+        chosen.append((ws[0], flags, True))     # one shrunk witness per mechanism first
+    for kind, ws in sorted(per_kind.items()):
+        for w in ws[1:2]:
+            chosen.append((w, flags, False))     # plus one as found
     for w in core.pmap(_shrink_job, chosen, workers=workers):
         run.count('witnesses_shrunk' if w.get('shrunk') else 'witnesses_unshrunk')
         run.violation(w)
